@@ -23,7 +23,7 @@ CHECKS = [
     {"property_id": "C03", "level": "model_checking", "design_ref": "DESIGN.md §6 C03",
      "text": "TLC checks, for every (schema, value) of the scope grammar x boundary values, that the specification's decoder inverts every "
              "block-layout variant and rejects every single-point malformation and proper prefix; each case is replayed on the real decoder "
-             "(slice and chunked readers), and decode events of random schemas/values/layouts/corruptions are trace-validated by TLC against Dec. What a target is shown is part of the specification (DeView.tla): the abstract value for schema-directed targets, the erased view for self-describing ones, and for decimals under the integer hints (u64 / i64 / u128 / i128) the visit call and value at every boundary.",
+             "(slice and chunked readers), and decode events of random schemas/values/layouts/corruptions are trace-validated by TLC against Dec. What a target is shown is part of the specification (DeView.tla): the abstract value for schema-directed targets, the erased view for self-describing ones, and for decimals under the integer hints (u64 / i64 / u128 / i128) the visit call and value at every boundary. Three families of typed targets exercise the serde entry points (structs / Vec / enums-for-unions; maps-for-records / tuples / Option / Rust enums for Avro enums; Option over plain nodes and over unions of several branches / enums named after the type / strings over bytes and fixed / tuple structs).",
      "note": TLC_NOTE,
      "technique": "TLA+ spec (AvroBinary.tla Dec/Layouts/Mal) + TLC bounded enumeration replayed into the code + TLC trace validation of recorded decode events"},
     {"property_id": "C13", "level": "model_checking", "design_ref": "DESIGN.md §6 C13",
